@@ -140,3 +140,77 @@ func c01HistRecorders(cached, dur bool, rounds, par int) string {
 	}
 	return ""
 }
+
+// c01Stale: per round a subscope with counters is used, closed and dropped (by a pass, or by asking for
+// it again); new counters and a histogram are created on live scopes and incremented; the old handles
+// are incremented too (harmless: their scope is gone).  What is delivered for every LIVE counter and
+// histogram bucket must add up to exactly what was recorded through ITS handle.
+func c01Stale(cached, byPass bool, rounds int) string {
+	log := &Log{}
+	opts := tally.ScopeOptions{OmitCardinalityMetrics: true}
+	if cached {
+		opts.CachedReporter = &RecCached{L: log, Caps: caps{true, true}}
+	} else {
+		opts.Reporter = &RecReporter{L: log, Caps: caps{true, true}}
+	}
+	root, closer := tally.VerifNewRootScope(opts, 0, 1)
+	defer closer.Close()
+	want := map[string]int64{}
+	var stale []tally.Counter
+	for r := 0; r < rounds; r++ {
+		tags := map[string]string{"round": fmt.Sprint(r)}
+		sub := root.Tagged(tags)
+		var mine []tally.Counter
+		for i := 0; i < 3; i++ {
+			c := sub.Counter(fmt.Sprintf("old%d", i))
+			c.Inc(1)
+			mine = append(mine, c)
+		}
+		sub.(interface{ Close() error }).Close()
+		if byPass {
+			tally.VerifReportOnce(root)
+		} else {
+			root.Tagged(tags) // the re-request reports and drops the closed scope, and registers a new one
+		}
+		stale = append(stale, mine...)
+		for i := 0; i < 3; i++ {
+			name := fmt.Sprintf("live%d_%d", r, i)
+			root.Counter(name).Inc(int64(10 + i))
+			want[name] += int64(10 + i)
+		}
+		h := root.Histogram(fmt.Sprintf("liveh%d", r), tally.ValueBuckets{1, 2})
+		h.RecordValue(1.5)
+		for _, c := range stale {
+			c.Inc(7) // through handles of dropped scopes
+		}
+		tally.VerifReportOnce(root)
+	}
+	got := map[string]int64{}
+	alloc := map[int64]string{}
+	hist := map[int64]string{}
+	for _, e := range log.Snapshot() {
+		switch e.K {
+		case 1:
+			got[e.S[0]] += e.I[0]
+		case 11, 14:
+			alloc[e.I[0]] = e.S[0]
+		case 21:
+			got[alloc[e.I[0]]] += e.I[1]
+		case 4:
+			got[e.S[0]] += e.I[2]
+		case 24:
+			hist[e.I[3]] = alloc[e.I[0]]
+		case 26:
+			got[hist[e.I[0]]] += e.I[1]
+		}
+	}
+	for r := 0; r < rounds; r++ {
+		want[fmt.Sprintf("liveh%d", r)] = 1
+	}
+	for n, w := range want {
+		if got[n] != w {
+			return fmt.Sprintf("%q: %d recorded through its handle, %d delivered (counters of subscopes that had been closed and dropped before it was created were incremented by 7 through their old handles)", n, w, got[n])
+		}
+	}
+	return ""
+}
